@@ -241,6 +241,14 @@ def lattice(tier, seed):
                 "groundwater(off, constant 1.5 m, stepping 1.5 -> 3.0 m) x weather(3: Tunis, Champion, synthetic mixed [with 50% TAW initial water "
                 "except net irrigation at WP]), seeded start years, 3 seasons; initial water FC except SMT (50% TAW) and net "
                 "irrigation (WP)")
+    # thermal-time crops sown so that flowering falls into the hottest weeks of the record (pollination heat stress reads the raw daily maxima,
+    # which the thermal-calendar code clips for its own purposes): every start year, rainfed, no table
+    hot = [("WheatGDD", "04/15"), ("MaizeGDD", "05/15")]
+    years = range(1980, 1996, 3 if tier == "quick" else 1)
+    for crop, pl in hot:
+        for year in years:
+            cfgs.append(base_cfg(crop, pl, "SandyLoam", STRATS[0], GWS[0], wxs_quick[0], year))
+    desc += "; plus thermal-time crops flowering in the hottest weeks (WheatGDD sown 04/15, MaizeGDD sown 05/15, Tunis, start years 1980-1995%s)" % (" step 3" if tier == "quick" else "")
     for i, c in enumerate(cfgs):
         c["idx"] = i
     return cfgs, desc
